@@ -212,14 +212,16 @@ def stub_kernel(name, mode, numeric=None):
         n = trial_points.shape[1]
         out = np.empty(n, dtype=object)
         for j in range(n):
-            out[j] = S.fn(name, list(test_point) + list(trial_points[:, j]) + list(test_normal) + list(trial_normals[:, j]) + list(kernel_parameters), numeric)
+            nrm = [] if test_normal is None else list(test_normal) + list(trial_normals[:, j])
+            out[j] = S.fn(name, list(test_point) + list(trial_points[:, j]) + nrm + list(kernel_parameters), numeric)
         return out
 
     def singular(test_points, trial_points, test_normal, trial_normal, kernel_parameters):
         n = trial_points.shape[1]
         out = np.empty(n, dtype=object)
         for j in range(n):
-            out[j] = S.fn(name, list(test_points[:, j]) + list(trial_points[:, j]) + list(test_normal) + list(trial_normal) + list(kernel_parameters), numeric)
+            nrm = [] if test_normal is None else list(test_normal) + list(trial_normal)
+            out[j] = S.fn(name, list(test_points[:, j]) + list(trial_points[:, j]) + nrm + list(kernel_parameters), numeric)
         return out
 
     return regular if mode == "regular" else singular
